@@ -4,6 +4,7 @@ import (
 	"encoding/json"
 	"fmt"
 	"math"
+	"math/big"
 	"strings"
 
 	compact_time "github.com/kstenerud/go-compact-time"
@@ -74,6 +75,9 @@ func valueClass(e ev.E) string {
 		}
 		if e.BDec.Form != 0 {
 			return "bigdf.special"
+		}
+		if e.BDec.Exponent < 0 && e.BDec.Coeff.Sign() != 0 && new(big.Int).Mod(&e.BDec.Coeff, big.NewInt(10)).Sign() == 0 {
+			return "bigdf.fraction-with-trailing-zeros"
 		}
 		return "bigdf"
 	case ev.BigFloat:
